@@ -68,12 +68,13 @@ Definition modelled_rpcerror_fields : list (string * string) := [
   ("error_kind", "error_kind");
   ("super", "f'{error_type}: {error_message}'")
 ].
-(* M_WireErr.http_unary_resp / http_session / http_turn / http_exch_resp: which status every except clause produces *)
+(* M_WireErr.http_unary_resp / http_session / http_turn / http_exch_resp: which status every except clause that an
+   exception raised inside dispatch can reach produces (request-reading handlers are C06/C15's and are not listed) *)
 Definition modelled_http_sites : list (string * list (list string * list string)) := [
-  ("_run_unary_sync", [(["pa.ArrowInvalid"; "TypeError"; "StopIteration"; "RpcError"; "VersionError"], ["raise=BAD_REQUEST"]); (["Exception"], ["raise=INTERNAL_SERVER_ERROR"]); (["Exception"], ["error_batch"; "status=INTERNAL_SERVER_ERROR"]); (["RuntimeError"], ["error_batch"; "status=INTERNAL_SERVER_ERROR"])]);
-  ("_run_stream_init_sync", [(["pa.ArrowInvalid"; "TypeError"; "StopIteration"; "RpcError"; "VersionError"], ["raise=BAD_REQUEST"]); (["Exception"], ["raise=INTERNAL_SERVER_ERROR"]); (["Exception"], ["status=INTERNAL_SERVER_ERROR"; "raise=outcome.http_status"])]);
+  ("_run_unary_sync", [(["Exception"], ["error_batch"; "status=INTERNAL_SERVER_ERROR"]); (["RuntimeError"], ["error_batch"; "status=INTERNAL_SERVER_ERROR"])]);
+  ("_run_stream_init_sync", [(["Exception"], ["status=INTERNAL_SERVER_ERROR"; "raise=outcome.http_status"])]);
   ("_run_http_exchange_init", [(["Exception"], ["status=INTERNAL_SERVER_ERROR"; "raise=outcome.http_status"])]);
-  ("_run_http_exchange_turn", [(["Exception"], ["status=INTERNAL_SERVER_ERROR"; "raise=outcome.http_status"]); (["Exception"], ["status=INTERNAL_SERVER_ERROR"; "raise=outcome.http_status"])]);
+  ("_run_http_exchange_turn", [(["Exception"], ["status=INTERNAL_SERVER_ERROR"; "raise=outcome.http_status"])]);
   ("_exchange_error_response", [(["<body>"], ["ctxvar=INTERNAL_SERVER_ERROR"; "error_batch"])]);
   ("_run_http_producer_turn", [(["Exception"], ["ctxvar=INTERNAL_SERVER_ERROR"; "error_batch"])])
 ].
